@@ -191,6 +191,12 @@ pub fn check_model(spec: &LmSpec, l: &mut Local) {
                         let want = to_f64(&prices[r]);
                         let reported: Vec<f64> = csol.shadow.iter().filter(|(n, _)| n == &row.name).map(|(_, v)| *v).collect();
                         l.count("compiled_door:prices_checked");
+                        // a row without variables is a constant comparison: the compiler drops it when it holds, so
+                        // it has no row to carry a price (its sensitivity is 0)
+                        if reported.is_empty() && row.coef.iter().all(|c| *c == 0.0) && want == 0.0 {
+                            l.count("compiled_door:constant-row-has-no-price");
+                            continue;
+                        }
                         let bad = reported.len() != 1 || (reported[0] - want).abs() > TOL * want.abs().max(oscale);
                         if bad {
                             let cause = if tightened_and_tight { "derived-bound-tight-at-the-optimum" } else { "other" };
@@ -241,6 +247,20 @@ fn families(quick: bool) -> Vec<LmFamily> {
         rhss: vec![-1.0, 3.0],
         rels: vec![Rel::Le, Rel::Ge],
         objs: vec![-3000.0, 1024.0, 2048.0, 0.0009765625, -0.00146484375],
+        senses: vec![Sense::Min, Sense::Max],
+        offsets: vec![0.0],
+        named: true,
+    });
+    // single-variable rows whose right-hand side coincides with a domain bound while the coefficient is not 1
+    v.push(LmFamily {
+        name: "D5-rows-that-look-like-bounds-n2m2",
+        n: 2,
+        m: 2,
+        doms: vec![Dom::NonNegB(0.0, 4.0), Dom::Real(2.0, 10.0)],
+        coefs: vec![-2.0, 0.0, 0.5, 1.0, 2.0],
+        rhss: vec![2.0, 4.0],
+        rels: vec![Rel::Le, Rel::Ge],
+        objs: vec![-1.0, 3.0],
         senses: vec![Sense::Min, Sense::Max],
         offsets: vec![0.0],
         named: true,
